@@ -5,6 +5,7 @@
 (* layouts gets at least one point per process; the standard layouts can be built and        *)
 (* connected).   call : [max1, max2, size, raised, n1, n2, returned]                          *)
 (*               grid : [npts, size, raised, n1, n2, built]                                  *)
+(*               gridcall : [npts, size, returned, raised, n1, n2]                           *)
 EXTENDS Integers, Sequences, TraceBase
 VARIABLE l
 Fits(e, a, b) == a * b = e.size /\ a >= 1 /\ a <= e.max1 /\ b >= 1 /\ b <= e.max2
@@ -26,7 +27,18 @@ GridEv(e) ==
           /\ e.n1 <= e.npts[4]>>,                          \* poloidal   : v over n1, z over n2
     <<"raises-only-if-none-fits", e.raised => ~SomeFit(c)>>,
     <<"standard-layouts-built-and-connected", ~e.raised => e.built>> >>)
-Event(e) == CASE e.k = "call" -> CallEv(e) [] e.k = "grid" -> GridEv(e) [] OTHER -> Rej(e, "unknown-event-kind")
+\* the same judgement of a call with grid sizes, without building the layouts (exhaustive small box incl. extents of 1)
+GridCallEv(e) ==
+    LET c == [size |-> e.size, max1 |-> IF e.npts[1] < e.npts[4] THEN e.npts[1] ELSE e.npts[4],
+              max2 |-> IF e.npts[3] < e.npts[4] THEN e.npts[3] ELSE e.npts[4]]
+    IN Verdict(e, <<
+    <<"terminates", e.returned>>,
+    <<"valid-result", (e.returned /\ ~e.raised) => Fits(c, e.n1, e.n2)>>,
+    <<"every-process-owns-a-point", (e.returned /\ ~e.raised) =>
+          /\ e.n1 <= e.npts[1] /\ e.n2 <= e.npts[4] /\ e.n2 <= e.npts[3] /\ e.n1 <= e.npts[4]>>,
+    <<"raises-only-if-none-fits", (e.returned /\ e.raised) => ~SomeFit(c)>>,
+    <<"finds-one-if-any-fits", (e.returned /\ ~e.raised) => SomeFit(c)>> >>)
+Event(e) == CASE e.k = "call" -> CallEv(e) [] e.k = "grid" -> GridEv(e) [] e.k = "gridcall" -> GridCallEv(e) [] OTHER -> Rej(e, "unknown-event-kind")
 Init == l = 1
 Next == l <= Len(Trace) /\ Event(Trace[l]) /\ l' = l + 1
 Accepted == TLCGet("stats").diameter = Len(Trace) + 1
